@@ -127,12 +127,8 @@ Section Prims.
   Variable P : prims.
   Variable fx : fixes.
   Hypothesis G : guarded_fixes fx.
-  (* a certificate is longer than the RSA key it carries *)
-  Hypothesis Hcert : forall c k ks, p_cert_key P c = Some (k, ks) -> 0 < ks < len c.
   (* an RSA block decrypts to at most as many bytes as the block *)
   Hypothesis Hrsa : forall k p blk pt, p_rsa_dec P k p blk = Some pt -> len pt <= len blk.
-  (* AES-CBC without padding preserves the length *)
-  Hypothesis Haes : forall k c, len (p_aes_dec P k c) = len c.
 
   Lemma rsa_decrypt_f_total key ks pol : 0 < ks -> forall fuel src, (length src <= fuel)%nat -> len src mod ks = 0 ->
     total (rsa_decrypt_f P fx fuel key ks pol src) /\
@@ -173,6 +169,11 @@ Section Prims.
     destruct (Z.eqb_spec (len src mod ks) 0) as [E|E]; cbn [negb]; [|split; [exact I|discriminate]].
     apply rsa_decrypt_f_total; try assumption; lia.
   Qed.
+
+  (* a certificate is longer than the RSA key it carries *)
+  Hypothesis Hcert : forall c k ks, p_cert_key P c = Some (k, ks) -> 0 < ks < len c.
+  (* AES-CBC without padding preserves the length *)
+  Hypothesis Haes : forall k c, len (p_aes_dec P k c) = len c.
 
   (* ---------------- asymmetric_decrypt_and_verify ---------------- *)
   Lemma recv_asym_total r src b1 off pol cert thumb :
